@@ -79,7 +79,18 @@ func refKey(name string, cfg []benchfmt.Config, key string) string {
 }
 
 func c05CheckName(e *c05Env, name string, cfgIdx int) string {
+	return c05CheckNameIn(e, name, cfgIdx, nil)
+}
+
+// c05CheckNameIn checks one name; if reuse is non-nil the name is written
+// into that Result's existing name buffer in place (as a Reader does with its
+// one reused Result), otherwise a fresh Result is built.
+func c05CheckNameIn(e *c05Env, name string, cfgIdx int, reuse *benchfmt.Result) string {
 	n := benchfmt.Name(name)
+	if reuse != nil {
+		reuse.Name = append(reuse.Name[:0], name...)
+		n = reuse.Name
+	}
 	wbase, wsegs, wgmp := ref.NameParts(name)
 	base, parts := n.Parts()
 	// base + parts reproduces the full name
@@ -112,6 +123,10 @@ func c05CheckName(e *c05Env, name string, cfgIdx int) string {
 		return "Full/String differ from the name"
 	}
 	res := &benchfmt.Result{Name: n, Iters: 1, Values: []benchfmt.Value{{Value: 1, Unit: "u"}}, Config: c05Configs[cfgIdx]}
+	if reuse != nil {
+		res = reuse
+		res.Config = c05Configs[cfgIdx]
+	}
 	for i, k := range c05Keys {
 		want := refKey(name, c05Configs[cfgIdx], k)
 		key := e.projs[i].Project(res)
@@ -253,11 +268,182 @@ func c05Long(c *mc.Check) {
 	f.Done()
 }
 
+type c05PairCase struct {
+	Prev, Cur string
+}
+
+// c05Reuse: the same projections and filters see two names one after the
+// other in ONE name buffer that is overwritten in place.
+func c05Reuse(c *mc.Check, maxLen int) {
+	replay := func(raw json.RawMessage) string {
+		var cs c05PairCase
+		if err := json.Unmarshal(raw, &cs); err != nil {
+			return err.Error()
+		}
+		var msg string
+		if p := mc.Catch(func() { msg = c05CheckPair(newC05Env(), cs.Prev, cs.Cur) }); p != "" {
+			return p
+		}
+		return msg
+	}
+	f := c.Family("name-buffer-reuse", fmt.Sprintf("every ordered pair of names of equal length ≤%d symbols, written one after the other into ONE reused Result's name buffer and seen by the same projection and filter objects (as when a Reader's result is projected directly); same oracle for both names; non-trivial = the two names have their '/' or '-N' boundaries at different offsets", maxLen), replay)
+	if c.Replaying() {
+		return
+	}
+	f.Bounds["max_len"] = maxLen
+	for L := 1; L <= maxLen; L++ {
+		var names []string
+		mc.Sequences(len(c05Symbols), L, func(m []int) {
+			var b []byte
+			for _, k := range m {
+				b = append(b, c05Symbols[k]...)
+			}
+			names = append(names, string(b))
+		})
+		// equal length in bytes: group by byte length
+		byLen := map[int][]string{}
+		for _, n := range names {
+			byLen[len(n)] = append(byLen[len(n)], n)
+		}
+		for _, group := range byLen {
+			group := group
+			mc.ParRange(uint64(len(group)), 4, c.TimeUp, func(w int, lo, hi uint64) {
+				e := newC05Env()
+				l := f.Local()
+				for i := lo; i < hi; i++ {
+					for _, cur := range group {
+						prev := group[i]
+						var msg string
+						if p := mc.Catch(func() { msg = c05CheckPair(e, prev, cur) }); p != "" {
+							msg = p
+						}
+						l.Evals++
+						_, s1, g1 := ref.NameParts(prev)
+						_, s2, g2 := ref.NameParts(cur)
+						if fmt.Sprint(lens(s1), len(g1)) != fmt.Sprint(lens(s2), len(g2)) {
+							l.Nontrivial++
+							l.Outcome("boundaries-differ")
+						} else {
+							l.Outcome("same-shape")
+						}
+						if msg != "" {
+							c.Fail(f, "name-reuse", c05PairCase{prev, cur}, msg)
+						}
+					}
+					if i%64 == 63 {
+						e = newC05Env()
+					}
+				}
+				l.Flush()
+			})
+		}
+	}
+	f.Sample(c05PairCase{"a/k=7", "a/a=k"})
+	f.Done()
+}
+
+func lens(s []string) []int {
+	out := make([]int, len(s))
+	for i, x := range s {
+		out[i] = len(x)
+	}
+	return out
+}
+
+func c05CheckPair(e *c05Env, prev, cur string) string {
+	res := &benchfmt.Result{Name: make(benchfmt.Name, 0, 64), Iters: 1, Values: []benchfmt.Value{{Value: 1, Unit: "u"}}}
+	if m := c05CheckNameIn(e, prev, 0, res); m != "" {
+		return "first name " + m
+	}
+	if m := c05CheckNameIn(e, cur, 0, res); m != "" {
+		return fmt.Sprintf("after %q in the same buffer: %s", prev, m)
+	}
+	return ""
+}
+
+// c05Stream: all names as benchmark lines of one text, read by one Reader,
+// each result projected directly (names alias the scanner's buffer).
+func c05Stream(c *mc.Check, maxLen int) {
+	f := c.Family("names-through-reader", fmt.Sprintf("every name of ≤%d symbols as a benchmark line of one text, forwards and backwards, read by one Reader whose reused Result is given directly to the same projection and filter objects; same oracle; non-trivial = names with parts", maxLen), nil)
+	if c.Replaying() {
+		return
+	}
+	en := mc.NewStrings(c05Symbols, maxLen)
+	for pass := 0; pass < 2; pass++ {
+		var names []string
+		var text strings.Builder
+		var sym []int
+		var buf []byte
+		for k := uint64(0); k < en.Total(); k++ {
+			i := k
+			if pass == 1 {
+				i = en.Total() - 1 - k
+			}
+			sym, buf = en.Render(i, sym, buf)
+			names = append(names, string(buf))
+			text.WriteString("Benchmark" + string(buf) + " 1 1 u\n")
+		}
+		e := newC05Env()
+		rd := benchfmt.NewReader(strings.NewReader(text.String()), "names")
+		i := 0
+		for rd.Scan() {
+			res, ok := rd.Result().(*benchfmt.Result)
+			if !ok {
+				c.Fail(f, "name-stream", names[i], fmt.Sprintf("line %d: %v", i+1, rd.Result()))
+				break
+			}
+			name := names[i]
+			var msg string
+			if string(res.Name) != name {
+				msg = fmt.Sprintf("line %d: name %q read as %q", i+1, name, res.Name)
+			} else {
+				for ki, k := range c05Keys {
+					want := refKey(name, nil, k)
+					if got := e.projs[ki].Project(res).Get(e.fields[ki]); got != want {
+						msg = fmt.Sprintf("name %q (line %d of the stream): projection %q = %q want %q", name, i+1, k, got, want)
+						break
+					}
+				}
+				for fi, fl := range c05Filters {
+					want := refKey(name, nil, fl.key) == fl.lit
+					if m, _ := e.filters[fi].Match(res); m.All() != want {
+						msg = fmt.Sprintf("name %q (line %d of the stream): filter %s:%q = %v want %v", name, i+1, fl.key, fl.lit, m.All(), want)
+						break
+					}
+				}
+			}
+			_, sg, g := ref.NameParts(name)
+			nt := int64(0)
+			if len(sg) > 0 || g != "" {
+				nt = 1
+			}
+			f.Count(1, nt)
+			if msg != "" {
+				c.Fail(f, "name-stream", name, msg)
+				f.Outcome("violation", 1)
+			} else {
+				f.Outcome("agree", 1)
+			}
+			i++
+			if i%2048 == 0 {
+				e = newC05Env()
+			}
+		}
+		if i != len(names) {
+			c.Fail(f, "name-stream", i, fmt.Sprintf("stream produced %d results for %d lines", i, len(names)))
+		}
+	}
+	f.Sample("Benchmarka/k=7-7 1 1 u")
+	f.Done()
+}
+
 func TestVerifC05(t *testing.T) {
 	c := mc.NewCheck("C05")
 	c.Assume("reference name model internal/verifref/name.go")
 	c05Names(c, mc.Pick(c, 7, 9))
 	c05Long(c)
+	c05Reuse(c, mc.Pick(c, 3, 4))
+	c05Stream(c, mc.Pick(c, 4, 5))
 	if code := c.Finish(); code != 0 {
 		os.Exit(code)
 	}
